@@ -19,7 +19,8 @@ RULE = ('Hypothesis generates parameter trees over the supported grammar (None/b
         '1<->True<->1.0<->"1"<->IntEnum; ()<->{}<->None; enum member <-> value/name/look-alike dict; nested task <-> look-alike '
         'dict; field swap; type swap to a twin). Engine "bulk": sets of 120 trees grouped by key. Oracle: (1) determinism - key == '
         'key of a second build from the same spec == key after pickle round trip (every protocol; stored and recomputed) == key of '
-        'the list<->tuple / dict<->frozendict re-spelling == key of deserialize_task(json(serialize_task(t))) == key computed in '
+        'the list<->tuple / dict<->frozendict re-spelling == key of deserialize_task(json(serialize_task(t))) == key of cache.load_task() on '
+        'the entry cache.save() wrote for t == key computed in '
         'the other shard processes, which run with different PYTHONHASHSEED; (2) injectivity - equal keys imply same type and '
         'equal canonical parameter trees (sha1 collisions ignored); (3) LocalStorage.exists(key) does not raise - for a plain storage directory, one below a symlinked directory, and one that is itself a symlink. Non-trivial = '
         'tree depth >= 2 containing a nested task or enum, or a pair differing only in a value\'s type. Distinct = hash of spec.')
@@ -53,6 +54,23 @@ def key_facts(tree: dict, storage) -> tuple[list[core.Finding], str]:
         else:
             if t3.cache_key != key:
                 out.append(core.Finding('C07:key-changes-after-reconstruction-from-metadata', f'{key} -> {t3.cache_key}'))
+        # the same reconstruction through the real entry: what save() wrote is what cached_tasks() rebuilds the task from
+        if key != 'null' and hasattr(cache, 'load_task'):
+            import datetime
+
+            from labtech.types import ResultMeta, TaskResult
+            st0 = storage.all[0]
+            try:
+                cache.save(st0, t, TaskResult(value=0, meta=ResultMeta(start=datetime.datetime(2020, 1, 2, 3, 4, 5), duration=datetime.timedelta(seconds=1))))
+                try:
+                    t4 = cache.load_task(st0, type(t), key)
+                finally:
+                    cache.delete(st0, t)
+            except Exception as ex:
+                out.append(core.Finding(f'C07:reconstruction-from-a-saved-entry-raised:{type(ex).__name__}', repr(ex)[:300]))
+            else:
+                if t4.cache_key != key:
+                    out.append(core.Finding('C07:key-changes-after-reconstruction-from-a-saved-entry', f'{key} -> {t4.cache_key}'))
     if key != 'null':
         try:
             storage.exists(key)
